@@ -35,7 +35,7 @@ TRANSLATORS = [tr_utf8.translate]
 TRUSTED = [
     "Lean 4.33 kernel; axioms of every theorem audited to be within {propext, Classical.choice, Quot.sound}",
     "translate/utf8.py (ast.literal_eval of UTF8VALIDATOR_DFA / UTF8_ACCEPT / UTF8_REJECT; tokenizer + recursive-descent "
-    "parser for the C table initialiser and the DFA_TRANSITION if-chain); self-checked each run: generated Python table == "
+    "parser for the C table initialiser and the DFA_TRANSITION if-chain; the while-conditions of the two C loops); self-checked each run: generated Python table == "
     "live tuple cell by cell, generated C table/macro == compiled C on all 8 x 256 live transitions",
     "hand-written Lean models of Utf8Validator.validate (pure Python) and of _nvx_utf8vld_validate_table/_unrolled + the cffi "
     "wrapper's result mapping (Abverif/Model/Utf8.lean); tied to the code only by the differential run",
@@ -55,8 +55,8 @@ MANIFEST_ENTRY = {
             "section 4 grammar and is alive exactly while some extension is well-formed (induction, all byte strings); the "
             "validate() model gives, for every chunking including empty chunks, the same carried state, verdict, "
             "endsOnCodePoint and total index as one call, reports the first offending byte, and keeps rejecting after a "
-            "reject. NVX = pure Python is proved for call sequences with no call after a reject (nvx_eq_py_partial); the full "
-            "statement is refuted for today's C code by a concrete sequence (finding F1) and proved for the repaired behaviour. "
+            "reject. NVX = pure Python is proved at full strength (nvx_eq_py: every call sequence, every implementation id, all "
+            "four tuple elements), resting on the C table, the C macro and the C loop conditions as re-read from /repo on this run. "
             "The models are tied to the code by running pure Python and the rebuilt NVX C (wrapper with every implementation "
             "selection, internal table and unrolled entry points) on the complete transition relation, all byte strings up to "
             "length 2 (quick) / 3 (thorough) plus 4-byte families, and generated mixtures under random chunkings, judged by "
@@ -64,7 +64,8 @@ MANIFEST_ENTRY = {
     "note": "Trusted: Lean kernel, the translators (self-checked against the live objects each run), the hand-written validate "
             "models (differential tie only), gcc/cffi. The SSE2/SSE4.1 functions in _utf8validator.c are not reachable from "
             "nvx_utf8vld_validate (every implementation id except 2 dispatches to the table loop) and are not covered. "
-            "Known finding F1 (NVX forgets a rejection on the next call) is reproduced on every run.",
+            "Finding F1 (NVX forgot a rejection on the next call) was repaired in /repo c2c187d5; a regression is reported as a "
+            "violation with key nvx-forgets-reject-on-next-call and also breaks loops_run_in_reject / nvx_eq_py.",
 }
 W = Path(__file__).parent / "workers"
 
@@ -534,7 +535,6 @@ def _run(ctx, res, scratch, internal):
         hs = " ".join(H(c) for c in seqs[i])
         mlines += [f"utf8.validate.py {hs}", f"utf8.validate.nvx 1 {hs}", f"utf8.validate.nvx 2 {hs}"]
     mout = drv_parallel(ctx, mlines, 12)
-    f1_fixed = 0
     nbreak = 0
     for i in range(len(seqs)):
         mp, m1, m2 = (x.split(" | ")[0].replace(" ", ",") for x in mout[3 * i:3 * i + 3])
@@ -545,16 +545,12 @@ def _run(ctx, res, scratch, internal):
             want = mp if impl == "py" else (m2 if impl in ("nvx.impl2", "nvx.unrolled") else m1)
             res.traces_validated += 1
             if got != want:
-                if impl != "py" and got == mp:
-                    f1_fixed += 1       # the C no longer forgets a reject: it follows the repaired model (= pure Python)
-                    continue
                 nbreak += 1
                 if nbreak <= 5:
                     res.correspondence_breaks.append({"stream": f"Lean model vs {impl}", "chunks": [H(c) for c in seqs[i]],
                                                       "model": want, "implementation": got})
-    if f1_fixed:
-        res.notes.append(f"{f1_fixed} NVX runs answered calls after a reject like the pure-Python validator: the source no "
-                         "longer shows F1; it follows validateNvxFixed (theorem nvxFixed_eq_py), update Model.validateNvxWith")
+    if nbreak:
+        res.count("model_mismatches", nbreak)
     res.count("model_lines", len(mlines))
 
     # CPython's strict decoder as a second reference for the Spec itself (sequence-level observables)
